@@ -5,6 +5,10 @@ V = os.path.dirname(os.path.dirname(os.path.abspath(__file__)))
 ALL = ["C%02d" % i for i in range(1, 20)]
 TECH = "symbolic execution of the real /repo source on z3 bit-vector proxies (symx), per-path SMT queries, concrete replay"
 CLAIMED = {
+ "C05": dict(text="Bounded symbolic verification: MODE SELECT 6/10, PERSISTENT RESERVE OUT and EXTENDED COPY LID1/LID4 "
+                  "constructors run on structurally enumerated parameter dictionaries with symbolic numeric leaves; dataout is "
+                  "compared byte for byte with an independent builder and all embedded lengths with the bytes that follow.",
+             ref="3/C05", note="spec/paramlists.py trusted; string contents concrete (lengths enumerated up to 223)"),
  "C04": dict(text="Bounded symbolic verification: responses laid out by independent standard-derived builders with every field "
                   "a solver variable and the structure (descriptor counts, kinds, layouts) enumerated; the real decoders run "
                   "on them and z3 decides field-by-field equality and exact descriptor counts, with symbolic trailing bytes.",
